@@ -19,22 +19,30 @@ Section C12.
      `index` order (status and iterations of a model are ordinary variables here): the result's span is the new span,
      strictness and attribute contents carry over, and variable by variable (same name, same position, same dtype)
      the new series is  [ old[pos p] if p is in the old span else fill  |  p in new span ]  with
-     fill = fill_cell dtype (per-variable keyword if given else fill_value). *)
+     fill = fill_cell dtype (per-variable keyword if given else fill_value) — exactly, for every dtype but object; for an
+     object-dtype series up to the identity of the referenced objects (`erase`), which are deep copies since fix 28b2a9a.
+     The result's span object is a new object (`fresh`: copy.deepcopy(span), fix af303e7). *)
   Theorem C12_reindex_values (st st' : cst) (new_span : span) (new_id : Z) (fv : pyval) (strict : option bool)
           (fills : list (string * pyval)) (fresh : Z) :
     wf st ->
     old_span_ok pd_get_loc pd_contains (c_span st) (span_labels new_span) ->
     reindex_M pd_get_loc pd_contains cast st new_span new_id fv strict fills fresh = Ret st' ->
-    c_span st' = new_span /\ c_span_id st' = new_id /\ c_strict st' = c_strict st
+    c_span st' = new_span /\ c_span_id st' = fresh /\ c_strict st' = c_strict st
     /\ attrs_view (c_attrs st') = attrs_view (c_attrs st)
     /\ Forall2 (fun a b : string * series cell =>
                   fst b = fst a /\ s_dtype (snd b) = s_dtype (snd a)
                   /\ exists c, fill_cell cast (List.length (span_labels new_span)) (s_dtype (snd a)) (fill_for fills fv (fst a)) = Ret c
-                            /\ s_data (snd b) =
-                               map (fun p => match pos p (span_labels (c_span st)) with
-                                             | Some q => nth q (s_data (snd a)) c
-                                             | None => c
-                                             end) (span_labels new_span))
+                            /\ map erase (s_data (snd b)) =
+                               map erase (map (fun p => match pos p (span_labels (c_span st)) with
+                                                        | Some q => nth q (s_data (snd a)) c
+                                                        | None => c
+                                                        end) (span_labels new_span))
+                            /\ (s_dtype (snd a) <> DObj ->
+                                s_data (snd b) =
+                                map (fun p => match pos p (span_labels (c_span st)) with
+                                              | Some q => nth q (s_data (snd a)) c
+                                              | None => c
+                                              end) (span_labels new_span)))
                (c_vars st) (c_vars st').
   Proof. exact (reindex_values pd_get_loc pd_contains cast st st' new_span new_id fv strict fills fresh). Qed.
 
@@ -59,28 +67,32 @@ Section C12.
   Proof. exact (fill_none_defaults cast). Qed.
 
   (* ---------- reindex_fresh ---------- *)
-  (* every array and every mutable attribute of the result is a newly allocated object; object references inside
-     object-dtype cells come from the original's cells (copied by reference) or from the fill value *)
+  (* the span object, every array and every mutable attribute of the result are newly allocated objects; an object reference in a
+     cell of the result is a newly allocated deep copy, or the fill value's — or sits in a series that is not of object dtype
+     (NumPy holds references in object arrays only: obj_typed) *)
   Theorem C12_reindex_fresh (st st' : cst) (new_span : span) (new_id : Z) (fv : pyval) (strict : option bool)
           (fills : list (string * pyval)) (fresh : Z) :
     wf st ->
     old_span_ok pd_get_loc pd_contains (c_span st) (span_labels new_span) ->
     reindex_M pd_get_loc pd_contains cast st new_span new_id fv strict fills fresh = Ret st' ->
-    (forall id, In id (series_ids (c_vars st') ++ attr_ids (c_attrs st')) -> fresh <= id)
+    (forall id, In id (c_span_id st' :: series_ids (c_vars st') ++ attr_ids (c_attrs st')) -> fresh <= id)
     /\ (forall id, In id (object_ids (c_vars st')) ->
-          In id (object_ids (c_vars st)) \/ exists n dt v, cast n dt v = Ret (CO id)).
+          fresh <= id
+          \/ (exists n dt v, cast n dt v = Ret (CO id))
+          \/ (exists kv, In kv (c_vars st) /\ s_dtype (snd kv) <> DObj /\ In id (cell_ids (s_data (snd kv))))).
   Proof. exact (reindex_fresh pd_get_loc pd_contains cast st st' new_span new_id fv strict fills fresh). Qed.
 
-  (* no object references, an allocator handing out unused identities, a new span object that is not one of the
-     original's objects: the result shares NOTHING with the original *)
+  (* an allocator handing out unused identities, fill values that are not objects of the original, references kept in object-dtype
+     series only: the result shares NOTHING with the original — not the span object (even when the caller passes the original's
+     own span object: new_id is unconstrained), not an array, not a mutable attribute, not an object held in a cell.
+     (Before fixes af303e7 / 28b2a9a this needed the guards "the span passed is not the original's" and "no object cells".) *)
   Theorem C12_reindex_shares_nothing (st st' : cst) (new_span : span) (new_id : Z) (fv : pyval) (strict : option bool)
           (fills : list (string * pyval)) (fresh : Z) :
     wf st ->
     old_span_ok pd_get_loc pd_contains (c_span st) (span_labels new_span) ->
     (forall id, In id (ids st) -> id < fresh) ->
-    ~ In new_id (ids st) ->
-    object_ids (c_vars st) = [] ->
-    (forall n dt v id, cast n dt v <> Ret (CO id)) ->
+    obj_typed st ->
+    (forall n dt v id, cast n dt v = Ret (CO id) -> ~ In id (ids st)) ->
     reindex_M pd_get_loc pd_contains cast st new_span new_id fv strict fills fresh = Ret st' ->
     forall id, In id (ids st') -> ~ In id (ids st).
   Proof. exact (reindex_shares_nothing pd_get_loc pd_contains cast st st' new_span new_id fv strict fills fresh). Qed.
@@ -111,7 +123,7 @@ Section C12.
     wf st ->
     old_span_ok pd_get_loc pd_contains (c_span st) (span_labels new_span) ->
     model_reindex_M pd_get_loc pd_contains cast st new_span new_id fv strict fills fresh = Ret st' ->
-    c_span st' = new_span /\ c_span_id st' = new_id /\ c_strict st' = c_strict st
+    c_span st' = new_span /\ c_span_id st' = fresh /\ c_strict st' = c_strict st
     /\ attrs_view (c_attrs st') = attrs_view (c_attrs st)
     /\ Forall2 (fun a b : string * series cell =>
                   fst b = fst a /\ s_dtype (snd b) = s_dtype (snd a)
@@ -119,11 +131,17 @@ Section C12.
                                  (if String.eqb (fst a) "status" then match lookup "status" fills with Some v => v | None => PStr "-" end
                                   else if String.eqb (fst a) "iterations" then match lookup "iterations" fills with Some v => v | None => PInt (-1) end
                                   else match lookup (fst a) fills with Some v => v | None => fv end) = Ret c
-                            /\ s_data (snd b) =
-                               map (fun p => match pos p (span_labels (c_span st)) with
-                                             | Some q => nth q (s_data (snd a)) c
-                                             | None => c
-                                             end) (span_labels new_span))
+                            /\ map erase (s_data (snd b)) =
+                               map erase (map (fun p => match pos p (span_labels (c_span st)) with
+                                                        | Some q => nth q (s_data (snd a)) c
+                                                        | None => c
+                                                        end) (span_labels new_span))
+                            /\ (s_dtype (snd a) <> DObj ->
+                                s_data (snd b) =
+                                map (fun p => match pos p (span_labels (c_span st)) with
+                                              | Some q => nth q (s_data (snd a)) c
+                                              | None => c
+                                              end) (span_labels new_span)))
                (c_vars st) (c_vars st').
   Proof. exact (model_reindex_values pd_get_loc pd_contains cast st st' new_span new_id fv strict fills fresh). Qed.
 
@@ -139,8 +157,9 @@ Section C12.
     forall name sr, lookup name (c_vars st) = Some sr ->
     exists c, fill_cell cast (List.length (span_labels new_span)) (s_dtype sr) (fill_for fills fv name) = Ret c
       /\ forall p i, pos p (span_labels new_span) = Some i ->
-           get_item_with lc' st' name (KLabel p)
-           = Ret (RScalar (match pos p (span_labels (c_span st)) with Some q => nth q (s_data sr) c | None => c end)).
+           exists v, get_item_with lc' st' name (KLabel p) = Ret (RScalar v)
+             /\ erase v = erase (match pos p (span_labels (c_span st)) with Some q => nth q (s_data sr) c | None => c end)
+             /\ (s_dtype sr <> DObj -> v = match pos p (span_labels (c_span st)) with Some q => nth q (s_data sr) c | None => c end).
   Proof. exact (reindex_then_label_get pd_get_loc pd_contains cast st st' new_span new_id fv strict fills fresh lc'). Qed.
 
   (* reindexing to the same periods in the same order changes no value, dtype or name of any variable, whatever the fill arguments *)
@@ -150,8 +169,8 @@ Section C12.
     old_span_ok pd_get_loc pd_contains (c_span st) (span_labels new_span) ->
     span_labels new_span = span_labels (c_span st) -> NoDup (span_labels (c_span st)) ->
     reindex_M pd_get_loc pd_contains cast st new_span new_id fv strict fills fresh = Ret st' ->
-    map (fun kv => (fst kv, (s_dtype (snd kv), s_data (snd kv)))) (c_vars st')
-    = map (fun kv => (fst kv, (s_dtype (snd kv), s_data (snd kv)))) (c_vars st).
+    map (fun kv => (fst kv, (s_dtype (snd kv), map erase (s_data (snd kv))))) (c_vars st')
+    = map (fun kv => (fst kv, (s_dtype (snd kv), map erase (s_data (snd kv))))) (c_vars st).
   Proof. exact (reindex_same_labels_identity pd_get_loc pd_contains cast st st' new_span new_id fv strict fills fresh). Qed.
 
   (* the result is well formed again, so reindex calls can be chained; extend (or permute) and come back: if every period of
@@ -171,8 +190,8 @@ Section C12.
     old_span_ok pd_get_loc pd_contains mid (span_labels back) ->
     reindex_M pd_get_loc pd_contains cast st mid id1 fv1 strict1 fills1 fresh1 = Ret st1 ->
     reindex_M pd_get_loc pd_contains cast st1 back id2 fv2 strict2 fills2 fresh2 = Ret st2 ->
-    map (fun kv => (fst kv, (s_dtype (snd kv), s_data (snd kv)))) (c_vars st2)
-    = map (fun kv => (fst kv, (s_dtype (snd kv), s_data (snd kv)))) (c_vars st).
+    map (fun kv => (fst kv, (s_dtype (snd kv), map erase (s_data (snd kv))))) (c_vars st2)
+    = map (fun kv => (fst kv, (s_dtype (snd kv), map erase (s_data (snd kv))))) (c_vars st).
   Proof. exact (reindex_roundtrip pd_get_loc pd_contains cast st st1 st2 mid back id1 id2 fv1 fv2 strict1 strict2 fills1 fills2 fresh1 fresh2). Qed.
 
   (* ---------- totality: on a well-formed object with an old span of the supported kinds, nothing but the strict test and
@@ -229,7 +248,7 @@ Section C12.
     wf st ->
     old_span_ok pd_get_loc pd_contains (c_span st) (span_labels new_span) ->
     pandas_reindex_M pd_get_loc pd_contains cast series_reindex assign_cast st names new_span new_id method fv strict fills l1 l2 l3 l4 l5 fresh = Ret st' ->
-    c_span st' = new_span /\ c_span_id st' = new_id /\ c_strict st' = c_strict st
+    c_span st' = new_span /\ c_span_id st' = fresh /\ c_strict st' = c_strict st
     /\ attrs_view (c_attrs st') = attrs_view (c_attrs st)
     /\ map fst (c_vars st') = map fst (c_vars st)
     /\ map (fun kv => s_dtype (snd kv)) (c_vars st') = map (fun kv => s_dtype (snd kv)) (c_vars st)
@@ -237,10 +256,15 @@ Section C12.
           exists sr' c, lookup k (c_vars st') = Some sr' /\ s_dtype sr' = s_dtype sr
             /\ fill_cell cast (List.length (span_labels new_span)) (s_dtype sr)
                  (if String.eqb k "status" then PStr "-" else if String.eqb k "iterations" then PInt (-1) else PNone) = Ret c
-            /\ s_data sr' = map (fun p => match pos p (span_labels (c_span st)) with
-                                          | Some q => nth q (s_data sr) c
-                                          | None => c
-                                          end) (span_labels new_span)).
+            /\ map erase (s_data sr') = map erase (map (fun p => match pos p (span_labels (c_span st)) with
+                                                                  | Some q => nth q (s_data sr) c
+                                                                  | None => c
+                                                                  end) (span_labels new_span))
+            /\ (s_dtype sr <> DObj ->
+                s_data sr' = map (fun p => match pos p (span_labels (c_span st)) with
+                                           | Some q => nth q (s_data sr) c
+                                           | None => c
+                                           end) (span_labels new_span))).
   Proof. exact (pandas_reindex_meta pd_get_loc pd_contains cast series_reindex assign_cast st st' names new_span new_id method fv strict fills l1 l2 l3 l4 l5 fresh). Qed.
 End C12.
 Print Assumptions C12_reindex_values.
@@ -272,20 +296,8 @@ Theorem C12_model_defaults (fills : list (string * pyval)) (fv : pyval) :
 Proof. exact (model_defaults fills fv). Qed.
 Print Assumptions C12_model_defaults.
 
-(* ---------- refutations (the guards above are needed; findings #21, the span object, #11) ---------- *)
-Theorem C12_reindex_fresh_object_cells_refuted :
-  exists st st', wf st /\ (forall id, In id (ids st) -> id < 100) /\ ~ In 9 (ids st)
-    /\ reindex_M no_pandas no_contains cast_tbl st (SRange 2001 1 3) 9 PNone None [] 100 = Ret st'
-    /\ exists id, In id (ids st') /\ In id (ids st).
-Proof. exact reindex_fresh_object_cells_refuted. Qed.
-Print Assumptions C12_reindex_fresh_object_cells_refuted.
-
-Theorem C12_reindex_same_span_object_refuted :
-  exists st st', reindex_M no_pandas no_contains cast_tbl st (c_span st) (c_span_id st) PNone None [] 100 = Ret st'
-    /\ In (c_span_id st') (ids st).
-Proof. exact reindex_same_span_object_refuted. Qed.
-Print Assumptions C12_reindex_same_span_object_refuted.
-
+(* ---------- refutations (findings #11, the tuple label, the mixin's status keyword; the former refutations for object cells
+   (#21) and the span object are gone: fixes 28b2a9a / af303e7 made C12_reindex_shares_nothing hold without those guards) ---------- *)
 Theorem C12_pandas_default_fill_refuted :
   exists st', rx_pandas_result = Ret st'
     /\ map (fun kv => nth 2 (s_data (snd kv)) (CV PNone)) (c_vars st')
@@ -336,10 +348,11 @@ Theorem C12_regular_index_reindex_values (k : ikind) (a s : Z) (n : nat) (cast :
   /\ Forall2 (fun x y : string * series cell =>
                 fst y = fst x /\ s_dtype (snd y) = s_dtype (snd x)
                 /\ exists c, fill_cell cast (List.length (span_labels new_span)) (s_dtype (snd x)) (fill_for fills fv (fst x)) = Ret c
-                          /\ s_data (snd y) = map (fun p => match pos p (reg_labels k a s n) with
-                                                            | Some q => nth q (s_data (snd x)) c
-                                                            | None => c
-                                                            end) (span_labels new_span))
+                          /\ (s_dtype (snd x) <> DObj ->
+                              s_data (snd y) = map (fun p => match pos p (reg_labels k a s n) with
+                                                             | Some q => nth q (s_data (snd x)) c
+                                                             | None => c
+                                                             end) (span_labels new_span)))
              (c_vars st) (c_vars st').
 Proof. exact (regular_index_reindex_values k a s n cast st st' new_span new_id fv strict fills fresh). Qed.
 Print Assumptions C12_regular_index_reindex_values.
